@@ -442,6 +442,35 @@ def run(chk, prog):
             ords_ += 1
     chk.floor(RU, 'string slicing / indexing sites in the compiler', n_str_idx, 20)
 
+    # ---------------- tokens prepended to a flow shift the indices of what follows
+    RS_ = 'C06.prepended-parameters-shift-the-wrapper'
+    chk.rule(RS_, 'prepend_parameters puts one {"temp=": p} token per flow parameter in front of a flow\'s content. Every '
+             'function of the emitter that builds an index path into a flow (joined_path with an integer index, in a '
+             'function that is handed the Flow) derives that index from Flow::parameters as well: an index that ignores them '
+             'addresses the temp= token instead of the weave container, and every path inside a parameterised knot with a '
+             'top-level label dangles.')
+    pp = prog.fn('emitter::prepend_parameters')
+    ltp = Tracer(prog, transparent=lambda cs: True, use_summaries=False)
+    n_idx = 0
+    if chk.anchor(RS_, 'emitter::prepend_parameters', pp):
+        for fn in sorted(prog.fns.values(), key=lambda f: f.p):
+            if fn.crate != 'bladeink_compiler' or fn.parent or not fn.short.startswith('emitter::'):
+                continue
+            if not any('ast::Flow' in fn.local_ty(i + 1) or fn.local_ty(i + 1).endswith('::Flow')
+                       for i in range(fn.body['argc'])):
+                continue
+            for bb, t in fn.calls():
+                if callee_short(t).endswith('joined_path') and len(t['args']) > 1 and any(
+                        x in ('usize', 'i32', 'u32') for x in (t['f'].get('targs') or [])):
+                    n_idx += 1
+                    at = ltp.prov(fn, t['args'][1])
+                    chk.decide(RS_, chk.key(RS_, fn.short, '#%d' % n_idx),
+                               'field:Flow::parameters' in at or 'field:EmitScope::param_offset' in at,
+                               'the index accounts for the prepended parameter tokens',
+                               '%s builds an index path into a flow without regard to the flow\'s parameters: for a flow '
+                               'with parameters the index addresses a prepended {"temp=": ..} token' % fn.short, fn.loc(bb))
+        chk.floor(RS_, 'index paths built by functions that are handed the Flow', n_idx, 1)
+
     # ---------------- reject unknown
     for name, what in (('ValidationContext::check_target', 'divert target'),
                        ('ValidationContext::check_function_call_target', 'called function')):
